@@ -163,3 +163,12 @@ Theorem C08_value_objects_model_synrule : forall rc l r rc' l' r' : graph,
   (synrule_eqb ser_nauty (rc, l, r) (rc', l', r') = true <-> iso_cov l l' /\ iso_cov r r' /\ iso_cov rc rc').
 Proof. exact synrule_eqb_nauty_flat. Qed.
 Print Assumptions C08_value_objects_model_synrule.
+
+(** 7. Corollary of 5 (fixed point): canonicalising a canonical graph with the exact back-end changes nothing on the
+       covered attributes, and the signature of the canonical graph (what CanonicalGraph hashes) is the signature
+       of the raw graph (what SynGraph hashes). *)
+Theorem C08_nauty_idempotent : forall g : graph, wf g -> els_ok g ->
+  geq_cov (canon_nauty g) (canon_nauty (canon_nauty g)) /\
+  serialise (canon_nauty (canon_nauty g)) = serialise (canon_nauty g).
+Proof. exact nauty_idempotent. Qed.
+Print Assumptions C08_nauty_idempotent.
